@@ -242,22 +242,43 @@ def rule_colours(facts, rep):
     loops = [l for l in (hir.for_loop(n) for n in hir.walk(t["hir"]) if n.get("k") == "match" and n.get("src") == "ForLoopDesugar") if l]
     ok = len(loops) == 1 and hir.is_call(hir.simp(loops[0][1]), R + "styled_str::styled_stream") and hir.is_local(hir.simp(loops[0][1])["args"][0], "styled_text")
     rep.check(ok, "colours", t["path"], "segments-from-styled_stream(text)", "", loc(t))
-    body = hir.stmts_of(loops[0][2]) if ok else []
-    ok = len(body) == 2 and hir.is_call(body[0], R + "set_color") and hir.is_call(body[1], R + "set_effects_and_text")
+    # per segment, in order: colour request for the foreground (gcolor), for the background (fcolor), then the text — through the
+    # helper set_color(( &fg, &bg ), doc) or with its two calls written out in the loop
+    seq = []
     if ok:
-        tup = hir.simp(hir.simp(body[0])["args"][0])
-        g = [hir.callee(hir.peel(x)).split("::")[-1] for x in tup.get("es", [])]
-        recv = [hir.place_str(hir.peel(x)["args"][0]) for x in tup.get("es", [])]
-        ok = g == ["get_fg_color", "get_bg_color"] and recv == ["styled.style", "styled.style"] and hir.is_local(hir.simp(body[1])["args"][0], "styled")
-    rep.check(ok, "colours", t["path"], "per-segment:colours(fg,bg)-then-text", "", loc(t))
-    s = facts.body("anstyle_roff", R + "set_color")
-    rep.fn(s["path"])
-    st = [hir.simp(x) for x in hir.stmts_of(s["hir"])]
-    got = []
-    for x in st:
-        if hir.is_call(x, R + "add_color_to_roff"):
-            got.append((hir.last_seg(hir.def_path(x["args"][1])), hirpp.expr(hir.peel(x["args"][2]))))
-    rep.check(got == [("FOREGROUND", "$colors.0"), ("BACKGROUND", "$colors.1")], "colours", s["path"], "gcolor←fg-then-fcolor←bg", f"{got}", loc(s))
+        Rl = hir.Resolver(t["hir"])
+        try:
+            helper = facts.body("anstyle_roff", R + "set_color")
+            rep.fn(helper["path"])
+        except AnchorMissing:
+            helper = None
+
+        def colour_src(e):
+            e = hir.peel(Rl.res(hir.peel(e)))
+            if e.get("k") == "call" and e.get("args"):
+                return (hir.callee(e).split("::")[-1], hir.place_str(e["args"][0]))
+            return ("?", hirpp.expr(e)[:30])
+        for n in hir.walk(loops[0][2]):
+            if n.get("k") != "call":
+                continue
+            if helper is not None and hir.is_call(n, R + "set_color"):
+                tup = hir.simp(n["args"][0])
+                els = tup.get("es", []) if tup.get("k") == "tuple" else []
+                pname = helper["params"][0].get("name")
+                for c in hir.walk(helper["hir"]):
+                    if hir.is_call(c, R + "add_color_to_roff"):
+                        fld = hir.peel(c["args"][2])
+                        idx = int(fld["name"]) if fld.get("k") == "field" and fld["name"].isdigit() and hir.is_local(fld["e"], pname) else None
+                        src = colour_src(els[idx]) if idx is not None and idx < len(els) else ("?", "?")
+                        seq.append((hir.last_seg(hir.def_path(c["args"][1])),) + src)
+            elif hir.is_call(n, R + "add_color_to_roff"):
+                seq.append((hir.last_seg(hir.def_path(n["args"][1])),) + colour_src(n["args"][2]))
+            elif hir.is_call(n, R + "set_effects_and_text"):
+                seq.append(("text", hir.local_name(n["args"][0])))
+        branches = [x for x in hir.walk(loops[0][2]) if x.get("k") in ("if", "match", "ret", "break", "continue")]
+        ok = seq == [("FOREGROUND", "get_fg_color", "styled.style"), ("BACKGROUND", "get_bg_color", "styled.style"), ("text", "styled")] and not branches
+    rep.check(ok, "colours", t["path"], "per-segment:colours(fg,bg)-then-text", f"{seq}", loc(t))
+    rep.check(ok, "colours", R + "set_color", "gcolor←fg-then-fcolor←bg", f"{seq[:2]}", loc(t))
     a = facts.body("anstyle_roff", R + "add_color_to_roff")
     rep.fn(a["path"])
     m = ac.single_expr(a["hir"])
@@ -416,8 +437,10 @@ def rule_segments(facts, rep):
     rep.check(ok, "segments", b["path"], "loops-over-styled_stream(input)", "", loc(b))
     if ok:
         pat, it, body = loops[0]
-        seq = [hir.simp(x) for x in hir.stmts_of(body)]
-        names = [hir.callee(x) if x.get("k") == "call" else x.get("k") for x in seq]
+        calls = [hir.callee(x) for x in hir.walk(body) if x.get("k") == "call" and hir.callee(x).startswith(R) and hir.callee(x).split("::")[-1] in
+                 ("set_color", "add_color_to_roff", "set_effects_and_text")]
+        names = calls
         exits = [n for n in hir.walk(body) if n.get("k") in ("break", "continue", "ret", "if", "match")]
-        rep.check(names == [R + "set_color", R + "set_effects_and_text"] and not exits, "segments", b["path"], "colour-requests-then-text-for-every-segment",
+        good = names in ([R + "set_color", R + "set_effects_and_text"], [R + "add_color_to_roff", R + "add_color_to_roff", R + "set_effects_and_text"])
+        rep.check(good and not exits, "segments", b["path"], "colour-requests-then-text-for-every-segment",
                   f"loop body must be set_color(..); set_effects_and_text(..) with no condition or early exit; found {names}, {len(exits)} branches", loc(b))
